@@ -1,7 +1,7 @@
-import Driver.Util
-/- Sub-protocol `C07`: not built yet. -/
+import Driver.Machine
+/- Sub-protocol `C07`: the machine protocol (see Driver/Machine.lean). -/
 namespace Driver.C07
 
-def proto : Driver.Proto := { σ := Unit, init := (), handle := fun s _ => (s, "unimplemented") }
+def proto : Driver.Proto := Driver.Machine.proto
 
 end Driver.C07
